@@ -6,6 +6,7 @@ Decided with the trace specifications of the other modules, on histories recorde
                  re-observed and the set of nodes that read differently must equal the set whose expected observation
                  changed (only explicit link settings and appends do that); every make_ result must be a fresh identity
   IprUnifyTrace  unified nodes re-observed later must read as when first returned; the table only grows (Stable)
+  IprScopesTrace few names and types, many redeclarations: every earlier declaration is re-observed after every later one
   IprStringsTrace  every String re-read after later interning (ContentStable)
 """
 import json
@@ -39,6 +40,14 @@ def run(pid, tier, seed):
         vlib.record_trace(un, ["record", "--seed", seed * 70 + k, "--runs", 4 if q else 10, "--len", 150 if q else 300,
                                "--noise", 60 if k % 2 else 0], tp, timeout=1800)
         jobs.append(("IprUnifyTrace", tp, ["UInvariant"], lambda ev: ev.get("op") == "init", None))
+    # scopes: after every declaration the whole scope is re-observed (name, type, master, declaration-set, position of
+    # every earlier declaration): an earlier declaration may gain companions in its set, nothing else may change
+    sc = vlib.build_harness("scopes", ["scopes.cxx"])
+    for k in range(2 if q else 6):
+        tp = os.path.join(tdir, "%s-%s-scopes-%d-%d.ndjson" % (pid, tier, seed, k))
+        vlib.record_trace(sc, ["record", "--seed", seed * 90 + k, "--runs", 3 if q else 8, "--len", 100 if q else 250,
+                               "--names", 5, "--types", 3], tp, timeout=1800)
+        jobs.append(("IprScopesTrace", tp, ["ScInvariant"], lambda ev: ev.get("k") == "reset", {"NNames": 5, "NT": 3}))
     tp = os.path.join(tdir, "%s-%s-strings-%d.ndjson" % (pid, tier, seed))
     vlib.record_trace(stx, ["record", "--seed", seed + 3, "--n", 600 if q else 3000], tp, timeout=1800)
     jobs.append(("IprStringsTrace", tp, ["StInvariant"], lambda ev: ev.get("e") == "reset", {"Known": "<- KnownWords", "NLex": 2}))
@@ -63,7 +72,7 @@ def run(pid, tier, seed):
             except ValueError:
                 ev = {}
             rej += 1
-            key = "%s:%s" % (mod, ev.get("op", ev.get("e")))
+            key = "%s:%s" % (mod, ev.get("op", ev.get("e", ev.get("k"))))
             if key in seen:
                 continue
             seen.add(key)
